@@ -30,6 +30,7 @@ typedef std::set<std::string> sset;
 struct FastCls {
     std::map<std::pair<const char *, const char *>, long long> c;
     void add(const char *a, const char *b = "") { c[std::make_pair(a, b)]++; }
+    void addn(const char *a, const char *b, long long n) { c[std::make_pair(a, b)] += n; }
     void flush() { for (auto &kv : c) VR.cls(std::string(kv.first.first) + kv.first.second, kv.second); c.clear(); }
 };
 static FastCls FC;
@@ -65,10 +66,12 @@ inline std::string show_set(sset const &s) {
 enum Kind { STORE, FETCH, RISE, REMOVE, CLEAR, TICK, STATS,
             // cache_interface level
             PAGE_BEGIN, WRITE, ADD_TRIGGER, FETCH_FRAME, STORE_FRAME, REC_PUSH, REC_POP_STORE, REC_DROP, RESET, PAGE_STORE, PAGE_END,
+            // C08 long fill/empty runs: one operation = `dl` cycles of (fill `key` fresh entries, empty them by method `flag`)
+            PHASE,
             NKINDS };
 static const char *kind_names[] = {"store", "fetch", "rise", "remove", "clear", "tick", "stats",
                                    "page_begin", "write", "add_trigger", "fetch_frame", "store_frame", "rec_push", "rec_pop_store",
-                                   "rec_drop", "reset", "page_store", "page_end"};
+                                   "rec_drop", "reset", "page_store", "page_end", "phase"};
 
 struct Op {
     int kind = FETCH;
@@ -101,6 +104,8 @@ struct Op {
         case FETCH: case REMOVE: case RISE: case ADD_TRIGGER: case FETCH_FRAME: case PAGE_BEGIN: case PAGE_STORE:
             s += "(" + vr::show(name(key), 24) + (flag ? ",flag" + std::to_string(flag) : "") + (kind == PAGE_STORE ? ",t=" + std::to_string(dl) : "") + ")"; break;
         case TICK: s += "(" + std::to_string(dl) + ")"; break;
+        case PHASE: s += "(" + std::to_string(dl) + " cycles x " + std::to_string(key) + " fresh entries of " + std::to_string(vlen) + "B, empty_by=" + std::to_string(flag) +
+                         ", names=" + std::to_string(vseed) + ", extra/shared triggers=" + (trigs.size() > 0 ? std::to_string(trigs[0]) : "0") + "/" + (trigs.size() > 1 ? std::to_string(trigs[1]) : "0") + ")"; break;
         case WRITE: s += "(" + std::to_string(vlen) + "B)"; break;
         default: break;
         }
